@@ -60,6 +60,44 @@ theorem ares_cand {s : State} {t x : Id} {ip : InsertionPoint} (hbase : DomBase 
         exact hx (List.mem_of_mem_head? hh)
       · cases hp
 
+/-- the nodes of an insertion place are open elements or template contents of open elements -/
+theorem ares_nodes {s : State} {t : Id} {ip : InsertionPoint} (ha : ARes s t ip) (ht : t ∈ s.openElems) :
+    ∀ p, ip.nodes.1 = p ∨ ip.nodes.2 = some p →
+      p ∈ s.openElems ∨ ∃ t' ∈ s.openElems, s.dom.templateContentsOf t' = some p := by
+  intro p hp
+  cases ha with
+  | plain =>
+    simp only [InsertionPoint.nodes] at hp
+    rcases hp with rfl | hp
+    · exact Or.inl ht
+    · cases hp
+  | tmpl tc h1 _ =>
+    simp only [InsertionPoint.nodes] at hp
+    rcases hp with rfl | hp
+    · exact Or.inr ⟨t, ht, h1⟩
+    · cases hp
+  | foster ip' _ _ hres =>
+    cases hres with
+    | tmpl t' tc ht' h1 =>
+      simp only [InsertionPoint.nodes] at hp
+      rcases hp with rfl | hp
+      · exact Or.inr ⟨t', List.mem_reverse.mp ht', h1⟩
+      · cases hp
+    | table pre post e p' hl hn =>
+      simp only [InsertionPoint.nodes, Option.some.injEq] at hp
+      have he : e ∈ s.openElems := by
+        rw [← List.mem_reverse, hl]; simp
+      have hp' : p' ∈ s.openElems := by
+        rw [← List.mem_reverse, hl]; simp
+      rcases hp with rfl | rfl
+      · exact Or.inl he
+      · exact Or.inl hp'
+    | bottom h hh _ =>
+      simp only [InsertionPoint.nodes] at hp
+      rcases hp with rfl | hp
+      · exact Or.inl (List.mem_of_mem_head? hh)
+      · cases hp
+
 /-- the `<script>` arm in a body-like mode -/
 theorem rb_script {tag : Tag} (h : tag.isStart ["script"] = true) : RB (stepInHead (.tag tag)) :=
   ⟨fun m r ph s res s' hb hm hbl e => by
@@ -72,6 +110,7 @@ theorem rb_script {tag : Tag} (h : tag.isStart ["script"] = true) : RB (stepInHe
     obtain ⟨up, hc, hbb, hneed, _⟩ := id hb
     obtain ⟨el, s1, e1, e2⟩ := bind_ok.mp e
     obtain ⟨hc1, hdo1, hchg1, hfresh1, hel1, hnm1, hnol1⟩ := createElement_core hc e1
+    obtain ⟨_, hpar1, hkids1, htxt1, htc1, _, _, _, hda1⟩ := createElement_adj hc.late hc.adj e1
     have hsn1 := hc.sameNames hchg1
     have hb1 : Big m r ph s1 := by
       refine ⟨up, hc1, ?_, hneed.congr hsn1, FPok.triv _ _⟩
@@ -100,8 +139,37 @@ theorem rb_script {tag : Tag} (h : tag.isStart ["script"] = true) : RB (stepInHe
     have hrs : RS r s3.dom s4.dom := by
       refine insertAt_rs (child := .node el) hc3.late.base hc3.rtu hipr3 ⟨hnol3 r, ?_⟩ e9
       exact ares_cand hc1.late.base hares (hb1.current ht).1 hfr1 hel1
+    have hcand := ares_cand hc1.late.base hares (hb1.current ht).1 hfr1 hel1
+    -- an insertion place consists of old nodes
+    have hipn : ∀ p, ip.nodes.1 = p ∨ ip.nodes.2 = some p → p < s.dom.size := by
+      intro p hp
+      rcases ares_nodes hares (hb1.current ht).1 p hp with h1 | ⟨t', ht', htc'⟩
+      · rw [hdo1] at h1
+        exact lt_of_isElement (hc.late.st.oe p h1)
+      · rw [hdo1] at ht'
+        have hlt : t' < s.dom.size := lt_of_isElement (hc.late.st.oe t' ht')
+        rw [tc_of_data (hda1 t' hlt)] at htc'
+        exact lt_of_data (hc.late.base.tcOk t' p htc').2
+    have hst3 : s3.openElems = s.openElems := by rw [q3.openElems, hdo1]
+    obtain ⟨hadj5, hadj5p⟩ := insertAt_new_adj (el := el) hc3.late hipok3 hc3.adj
+      (by rw [q3.openElems]; exact hfr1)
+      (by rw [parentOf_of_nodes q3.nodes]; exact hpar1)
+      (by rw [isText_of_data (d := s2.dom) (by unfold Dom.dataOf; rw [q3.nodes])]; exact htxt1)
+      (by rw [childrenOf_of_nodes q3.nodes]; exact hkids1)
+      (fun tc htc => by
+        rw [tc_of_nodes q3.nodes] at htc
+        obtain ⟨h1, h2⟩ := htc1 tc htc
+        exact ⟨by rw [childrenOf_of_nodes q3.nodes]; exact h1,
+          fun p hp => Nat.ne_of_lt (Nat.lt_of_lt_of_le (hipn p hp) h2)⟩)
+      hcand
+      (fun P a b x hP hpos hxa hxO hxx => by
+        refine hb1.no_open_before ht hares P a b x (by rw [← childrenOf_of_nodes q3.nodes]; exact hP)
+          (hpos.congr (fun y => (childrenOf_of_nodes q3.nodes y).symm) (fun p _ => (parentOf_of_nodes q3.nodes p).symm))
+          hxa (by rw [← q3.openElems]; exact hxO) (by rw [← q3.nm]; exact hxx))
+      e9
+    have hoe43 : s4.openElems = s3.openElems := by rw [hdo5]
     have hc4 : Core s4 r up ph := hc3.transfer hl5 hext5.chg hrs (by rw [hk05]; exact hc3.rdoc)
-      (by rw [hdo5]) (by rw [hdo5]) (by rw [hdo5]) (by rw [hdo5]) (by rw [hdo5])
+      (by rw [hdo5]) (by rw [hdo5]) (by rw [hdo5]) (by rw [hdo5]) (by rw [hdo5]) (by rw [hoe43]; exact hadj5)
     obtain ⟨_, s6, e10, e11⟩ := bind_ok.mp e7
     unfold push at e10
     obtain ⟨_, rfl⟩ := modS_ok.mp e10
@@ -111,6 +179,7 @@ theorem rb_script {tag : Tag} (h : tag.isStart ["script"] = true) : RB (stepInHe
       rw [nm_chg hext5.chg hel3, q3.nm]; exact hnm1
     have hfr4 : el ∉ s4.openElems := by rw [hst4]; rw [hdo1] at hfr1; exact hfr1
     have hc6 := hc4.push ⟨hext5.chg.isElement hel3, by rw [hk05]; exact hnol3 0⟩ hfr4 (by rw [hnm4]; decide)
+      (by rw [hoe43]; exact hadj5p)
     have hchg : Chg s.dom s4.dom := (hchg1.trans (SameSk.of_nodes q3.nodes).chg).trans hext5.chg
     have hfields : s4.headElem = s.headElem ∧ s4.mode = s.mode := by
       have h5 := hdo5; have h3 := q3.rest; have h1 := hdo1
